@@ -292,6 +292,14 @@ class Exec:
                             return EnumV(f"{ns}.{v}")
                 raise IllTyped(f"unknown qualified name '{name}'")
             return self.read_cell(self.lookup(name), g)
+        if k == "incdec":
+            cur = self.ev_expr(e[2], g)
+            if not isinstance(cur, Num) or cur.kind not in ("int", "double", "float"):
+                raise IllTyped(f"{e[1]} applied to a {type(cur).__name__}")
+            one = z3.IntVal(1) if cur.kind == "int" else z3.RealVal(1)
+            new = Num(cur.kind, cur.t + one if e[1] == "++" else cur.t - one)
+            self.assign(e[2], new, g)
+            return cur if e[3] == "post" else new
         if k == "cast":
             v = self.ev_expr(e[2], g)
             t = self.dm.parse_cpp_type(e[1])
@@ -498,6 +506,13 @@ class Exec:
             if name in ("std::abs", "abs") and len(a) == 1 and a[0].kind in ("int", "bool"):
                 x = toint(a[0])
                 return Num("int", z3.If(x >= 0, x, -x))        # std::abs(int) is int
+            if name in ("std::max", "std::min") and len(a) == 2:
+                # template<class T> const T& max(const T&, const T&): both arguments must have the same type
+                if a[0].kind != a[1].kind:
+                    raise IllTyped(f"{name}({a[0].kind}, {a[1].kind}): no matching function (template argument deduction conflict)")
+                x, y = (a[0].t, a[1].t) if a[0].kind == "int" else (real(a[0]), real(a[1]))
+                pick = (x >= y) if name == "std::max" else (x <= y)
+                return Num(a[0].kind, z3.If(pick, x, y))
             try:
                 return mathfn.cpp_call(self.ev, name, a)
             except mathfn.IllTypedCall as e:
